@@ -220,7 +220,7 @@ func dischargeAll(x *Exec, obls []*Obligation, timeout time.Duration, all bool) 
 		}(i)
 	}
 	wg.Wait()
-	// An obligation left undecided is tried once more with three times the time and little
+	// An obligation left undecided is tried once more with five times the time and little
 	// competition for the cores: a loaded machine must not turn a 3-second proof into an alarm.
 	var again []int
 	for i := range obls {
@@ -228,7 +228,7 @@ func dischargeAll(x *Exec, obls []*Obligation, timeout time.Duration, all bool) 
 			again = append(again, i)
 		}
 	}
-	if len(again) > 0 && len(again) <= 40 && timeout <= 20*time.Second {
+	if len(again) > 0 && len(again) <= 12 && timeout <= 20*time.Second {
 		sem2 := make(chan struct{}, 4)
 		for _, i := range again {
 			wg.Add(1)
@@ -236,7 +236,7 @@ func dischargeAll(x *Exec, obls []*Obligation, timeout time.Duration, all bool) 
 				defer wg.Done()
 				sem2 <- struct{}{}
 				defer func() { <-sem2 }()
-				r2 := solveQuery(queries[i], 3*timeout, false)
+				r2 := solveQuery(queries[i], 5*timeout, false)
 				if r2.Status == "unsat" || r2.Status == "sat" {
 					r2.Tried = append(append([]string{}, results[i].Tried...), append([]string{"retry:"}, r2.Tried...)...)
 					results[i] = r2
